@@ -3,6 +3,8 @@ import DEvo.Graph.Ordered
 import DEvo.Graph.Batches
 import Codec
 import DEvo.Opt.Optimize
+import DEvo.Sql.Merge
+import DEvo.Sql.Rebuild
 
 /-! Line protocol driver: one JSON object per input line, one JSON object per output line.
 Only model modules (no Mathlib/Batteries) are imported, so this links as a `lean_exe`. -/
@@ -89,6 +91,81 @@ def handle (j : Json) : Except String Json := do
       pure (Json.mkObj [("out", mj out), ("arr", mj arr), ("second", second)])
     | .error (.keyError w) => pure (Json.mkObj [("err", "KeyError"), ("where", w)])
     | .error (.valueError w) => pure (Json.mkObj [("err", "ValueError"), ("where", w)])
+  | "rows_after" =>
+    -- sequential rebuilds of one table: ops -> merged groups -> plan -> copy
+    let aligned ← j.getObjValAs? Bool "aligned"
+    let cols ← Codec.strList (← j.getObjVal? "cols")
+    let rowsJ ← (← j.getObjVal? "rows").getArr?
+    let rows : List Sql.Row ← rowsJ.toList.mapM (fun rj => do
+      let ps ← rj.getArr?
+      ps.toList.mapM (fun p => do
+        let q ← p.getArr?
+        match q.toList with
+        | [k, Json.null] => do pure (← k.getStr?, none)
+        | [k, v] => do pure (← k.getStr?, some (← v.getStr?))
+        | _ => throw "bad cell"))
+    let opsJ ← (← j.getObjVal? "ops").getArr?
+    let ops ← opsJ.toList.mapM (fun o => do
+      let t ← o.getObjValAs? String "type"
+      let d ← Codec.strList (← o.getObjVal? "detail")
+      let itsJ ← (← o.getObjVal? "items").getArr?
+      let its ← itsJ.toList.mapM (fun ij => do
+        let k ← ij.getObjValAs? String "kind"
+        let col ← match ij.getObjValAs? String "col" with | .ok c => pure c | .error _ => pure ""
+        let ini : Option Sql.Init ← match ij.getObjVal? "init" with
+          | .ok Json.null => pure none
+          | .ok v => do
+            let s ← v.getStr?
+            let emb := (ij.getObjValAs? Bool "embed").toOption.getD false
+            pure (some (if emb then Sql.Init.embed s else Sql.Init.param s))
+          | .error _ => pure none
+        pure (match k with
+          | "add" => Sql.Item.addColumn col ini
+          | "delete" => Sql.Item.deleteColumn col
+          | "modify" => Sql.Item.modifyColumn col ini
+          | _ => Sql.Item.other))
+      pure (Sql.opOf t d, its))
+    -- group the ops exactly as generate_table_ops_sql does (groupsAux accumulates in reverse)
+    let plain := ops.map (·.1)
+    let gs := (Sql.groups Generated.mergeableOps plain).reverse.map List.reverse
+    let rec assign (gs : List (List Sql.Op)) (rest : List (Sql.Op × List Sql.Item)) :
+        List (List (Sql.Op × List Sql.Item)) :=
+      match gs with
+      | [] => []
+      | g :: gs' => rest.take g.length :: assign gs' (rest.drop g.length)
+    let grouped := assign gs ops
+    let step := fun (st : List String × List Sql.Row) (g : List (Sql.Op × List Sql.Item)) =>
+      if g.any (fun oi => Sql.Op.needsRebuild Generated.rebuildItems oi.1) then
+        let items := g.flatMap (·.2)
+        let p := Sql.plan aligned st.1 items
+        let del := Sql.deletedCols items
+        let added := items.filterMap (fun it => match it with
+          | .addColumn c _ => if del.contains c then none else some c | _ => none)
+        let newCols := st.1.filter (fun c => !del.contains c) ++ added
+        let rows' := st.2.map (fun r =>
+          let nr := Sql.evalRow p.fieldValues p.params r
+          newCols.map (fun c => (c, Sql.rowGet nr c)))
+        (newCols, rows')
+      else st
+    let (cols', rows') := grouped.foldl step (cols, rows)
+    pure (Json.mkObj [("cols", Codec.jStrs cols'),
+      ("rows", Json.arr (rows'.map (fun r => Json.arr (r.map (fun p =>
+        Json.arr #[Json.str p.1, match p.2 with | some v => Json.str v | none => Json.null])).toArray)).toArray),
+      ("rebuilds", toJson ((grouped.filter (fun g => g.any (fun oi => Sql.Op.needsRebuild Generated.rebuildItems oi.1))).length))])
+  | "rebuilds" =>
+    let opsJ ← (← j.getObjVal? "ops").getArr?
+    let ops ← opsJ.toList.mapM (fun o => do
+      let t ← o.getObjValAs? String "type"
+      let d ← Codec.strList (← o.getObjVal? "detail")
+      pure (Sql.opOf t d))
+    let mergeable ← match j.getObjVal? "mergeable" with
+      | .ok v => Codec.strList v
+      | .error _ => pure Generated.mergeableOps
+    pure (Json.mkObj [("rebuilds", toJson (Sql.rebuilds mergeable Generated.rebuildItems ops)),
+      ("groups", toJson ((Sql.groups mergeable ops).length)),
+      ("unmerged", toJson ((ops.filter (Sql.Op.needsRebuild Generated.rebuildItems)).length)),
+      ("mergeable_ok", toJson (Sql.mergeableOK mergeable)),
+      ("mergeable", Codec.jStrs mergeable)])
   | _ => .error s!"unknown op {op}"
 
 partial def loop (hin : IO.FS.Stream) (hout : IO.FS.Stream) : IO Unit := do
